@@ -12,3 +12,7 @@ func sendQueueLen(c *net.TCPConn) (int, error) {
 }
 
 func setRcvbuf(fd uintptr, n int) {}
+
+func ReserveDeadPort() (string, func(), error) {
+	return "", nil, errors.New("not available on this platform")
+}
